@@ -30,7 +30,7 @@ ASSUMPTIONS = [
     "under the legacy C locale the stdin path is compared only for ASCII documents; the API string paths are compared for all documents",
     "with diagnostics options, log lines on stdout/stderr are ignored; failure lines, exit status and fixed bytes must be identical",
 ]
-PROBES = ["cmp:file-vs-stdin", "cmp:file-vs-scan_string", "cmp:file-vs-scan_path", "cmp:inplace-vs-fix_string", "cmp:diagnostics", "locale_C", "non_ascii_doc", "crlf_doc", "stdin_split_multibyte", "stdin_chunk_1"]
+PROBES = ["cmp:diagnostics-under-fault", "cmp:file-vs-stdin", "cmp:file-vs-scan_string", "cmp:file-vs-scan_path", "cmp:inplace-vs-fix_string", "cmp:diagnostics", "locale_C", "non_ascii_doc", "crlf_doc", "stdin_split_multibyte", "stdin_chunk_1"]
 
 EDGE = ["edge_crlf", "edge_crlf_noeol", "edge_lone_cr", "edge_mixed_eol", "edge_bom", "edge_utf8_2", "edge_utf8_3", "edge_utf8_4", "edge_utf8_noeol", "edge_nbsp", "edge_formfeed", "edge_one_line", "edge_one_line_noeol", "ws_no_eol", "ws_trailing_eof", "ws_only_newlines", "ws_tabs", "ws_blank_end", "edge_long_line", "vp_and_builtin", "pr_good", "pr_bad", "fm_valid"]
 
@@ -62,8 +62,94 @@ DIAG = [
 ]
 
 
+def _generate_multi(rng):
+    """Diagnostics options under a contained per-file error in a multi-file run."""
+    from .. import carriers
+
+    docs = workload.draw_docs(rng, rng.choice([2, 3, 3]), allow_concat=False)
+    docs = [(label, data[:3000]) for label, data in docs]
+    files, labels = workload.assign_names(rng, docs)
+    names = sorted(files)
+    victim = rng.choice(names[:-1])
+    fault_kind = rng.choice(["parse", "cb", "undecodable"])
+    plan, poison = [], None
+    if fault_kind == "parse":
+        plan = [{"site": "parse", "file": victim, "ord": 1, "act": "badtok"}]
+    elif fault_kind == "cb":
+        plan = [{"site": "cb/md047/next_line", "file": victim, "ord": 1, "act": "raise", "exc": "RuntimeError"}]
+    else:
+        poison = rng.choice(sorted(carriers.POISON))
+        files[victim] = carriers.POISON[poison]
+    return {
+        "kind": "multi",
+        "cls": [rng.choice([0, 1, 2, 3, 101]), "utf8"],
+        "world": dict(workload.draw_world(rng, copy_emulation=False)),
+        "files": workload.files_to_spec(files),
+        "labels": labels,
+        "victim": victim,
+        "plan": plan,
+        "mode": rng.choice(["scan", "fix"]),
+        "coe": rng.random() < 0.8,
+        "diag": rng.randrange(len(DIAG)),
+        "selection": rng.randrange(len(SELECTIONS)),
+    }
+
+
+def _evaluate_multi(sc):
+    stats = collections.Counter()
+    out = []
+    cli_flags, _ = SELECTIONS[sc["selection"]]
+    diag_flags, _ = DIAG[sc["diag"]]
+    base = (["--continue-on-error"] if sc["coe"] else []) + list(cli_flags)
+    names = sorted(sc["files"])
+
+    def execute(flags):
+        request = {"files": sc["files"], "world": sc["world"], "cpu": 90, "ops": [{"kind": "cli", "argv": flags + [sc["mode"]] + names}]}
+        if sc["plan"]:
+            request["plan"] = sc["plan"]
+        return run(request, sc["cls"])
+
+    ref = execute(base)
+    value = event_digest(ref)
+    if not done(ref):
+        return {"violations": [], "evals": 1, "digests": [(value, False)], "stats": {"ref_not_done": 1}, "faults": {}, "skipped": True}
+    ref_view = OpView(ref["result"]["ops"][0])
+    ref_tree = tree_bytes(ref)
+    fired = bool(ref["result"].get("fired")) or not sc["plan"]
+    other = execute(diag_flags + base)
+    stats["cmp:diagnostics-under-fault"] += 1
+    if done(other):
+        view = OpView(other["result"]["ops"][0])
+        tree = tree_bytes(other)
+        problems = []
+        if view.exit != ref_view.exit:
+            problems.append(["exit", view.exit, ref_view.exit])
+        for name in names:
+            if sorted(view.fail_tuples(name)) != sorted(ref_view.fail_tuples(name)):
+                problems.append(["failures of " + name, len(view.fail_tuples(name)), len(ref_view.fail_tuples(name))])
+            if (name in view.fixed) != (name in ref_view.fixed):
+                problems.append(["Fixed: " + name, name in view.fixed, name in ref_view.fixed])
+            if tree.get(name) != ref_tree.get(name):
+                problems.append(["bytes of " + name, repr(tree.get(name))[:80], repr(ref_tree.get(name))[:80]])
+        if view.exc:
+            problems.append(["traceback", view.exc, None])
+        if problems:
+            out.append(
+                violation(
+                    "C16/diagnostics-change-result",
+                    "C16/diagnostics-change-result|%s-under-fault|%s" % (sc["mode"], "+".join(f for f in diag_flags if f.startswith("--"))),
+                    {"diag": diag_flags, "flags": base, "victim": sc["victim"], "plan": sc["plan"], "problems": problems[:6], "labels": sc["labels"]},
+                )
+            )
+    faults = {"contained-fault": [1, 1 if fired else 0]}
+    return {"violations": out, "evals": 2, "digests": [(value, fired)], "stats": dict(stats), "faults": faults}
+
+
 def generate(rng, tier, index):
     from .. import corpus
+
+    if rng.random() < 0.3:
+        return _generate_multi(rng)
 
     docs = corpus.load()
     if rng.random() < 0.55:
@@ -118,6 +204,8 @@ def _norm_newlines(text):
 
 
 def evaluate(sc):
+    if sc.get("kind") == "multi":
+        return _evaluate_multi(sc)
     stats = collections.Counter()
     out = []
     data = unb64(sc["doc"])
@@ -285,6 +373,32 @@ def evaluate(sc):
 
 
 def reductions(sc):
+    if sc.get("kind") == "multi":
+        for field, neutral in (("selection", 0), ("coe", False)):
+            if sc[field] != neutral:
+                candidate = copy.deepcopy(sc)
+                candidate[field] = neutral
+                yield candidate
+        if sc["world"] != NEUTRAL_WORLD:
+            candidate = copy.deepcopy(sc)
+            candidate["world"] = dict(NEUTRAL_WORLD)
+            yield candidate
+        if sc["cls"] != [0, "utf8"]:
+            candidate = copy.deepcopy(sc)
+            candidate["cls"] = [0, "utf8"]
+            yield candidate
+        for name in sorted(sc["files"]):
+            if name != sc["victim"] and len(sc["files"]) > 2:
+                candidate = copy.deepcopy(sc)
+                del candidate["files"][name]
+                yield candidate
+        for name in sorted(sc["files"]):
+            data = unb64(sc["files"][name]["b64"])
+            for smaller in workload.shrink_bytes_candidates(data, limit=6):
+                candidate = copy.deepcopy(sc)
+                candidate["files"][name] = {"b64": b64(smaller)}
+                yield candidate
+        return
     if sc["selection"] != 0:
         candidate = copy.deepcopy(sc)
         candidate["selection"] = 0
